@@ -10,6 +10,7 @@ import (
 	"strings"
 
 	"golang.org/x/tools/go/ssa"
+	"golang.org/x/tools/go/types/typeutil"
 )
 
 func init() {
@@ -70,6 +71,8 @@ func checkC06(c *Ctx, r *Report) {
 	runETableIdx(c, r, reach, "the decode entry points", 1)
 	runECONSTIDX(c, r, reach, roots, "the decode entry points", 1)
 	checkSquareGuard(c, r)
+	checkAztecReadCode(c, r, "M-READCODE")
+	checkGuardOrder(c, r, reach)
 	checkCodabarIndexPair(c, r)
 	// the frozen E-DROP rows of the Data Matrix decoder rest on its version table: decide that here as well
 	checkDMTables(c, r)
@@ -373,4 +376,117 @@ func checkCodabarIndexPair(c *Ctx, r *Report) {
 
 func usesCursor(index, cur *Poly) bool {
 	return strings.Contains(index.String(), cur.String())
+}
+
+// E-GUARDORDER: a bounds test combined with the access it protects must come first
+func checkGuardOrder(c *Ctx, r *Report, reach map[*ssa.Function]bool) {
+	r.Rule("E-GUARDORDER", "in a short-circuit condition A || B / A && B on a decode path, when one operand compares an integer variable with a bound (==, !=, <, <=, >, >= against an end / size / length) and the other operand uses that same variable as an index or as the position argument of a bit-container read (Get, GetNextSet, GetNextUnset, IsRange), the comparison is the left operand: written the other way round the read happens before the bound is tested (positive example: the Code 93 termination-bar test nextStart == end || !row.Get(nextStart))", 1)
+	n, guarded := 0, 0
+	for _, p := range c.PkgList {
+		if strings.HasSuffix(p.PkgPath, "/testutil") {
+			continue
+		}
+		for _, file := range p.Syntax {
+			for _, d := range file.Decls {
+				fd, ok := d.(*ast.FuncDecl)
+				if !ok || fd.Body == nil {
+					continue
+				}
+				if fn, _ := p.TypesInfo.Defs[fd.Name].(*types.Func); fn != nil {
+					if sf := c.Prog.FuncValue(fn); sf != nil && reach != nil && !reach[sf] {
+						continue
+					}
+				}
+				ast.Inspect(fd.Body, func(nd ast.Node) bool {
+					be, ok := nd.(*ast.BinaryExpr)
+					if !ok || (be.Op != token.LOR && be.Op != token.LAND) {
+						return true
+					}
+					n++
+					// variables compared in an operand / used as a read position in an operand
+					compared := func(e ast.Expr) map[types.Object]bool {
+						out := map[types.Object]bool{}
+						if cmp, ok := ast.Unparen(e).(*ast.BinaryExpr); ok {
+							switch cmp.Op {
+							case token.EQL, token.NEQ, token.LSS, token.LEQ, token.GTR, token.GEQ:
+								for _, side := range []ast.Expr{cmp.X, cmp.Y} {
+									if id, ok := ast.Unparen(side).(*ast.Ident); ok {
+										if v, ok := p.TypesInfo.Uses[id].(*types.Var); ok {
+											if bt, ok := v.Type().Underlying().(*types.Basic); ok && bt.Info()&types.IsInteger != 0 {
+												out[v] = true
+											}
+										}
+									}
+								}
+							}
+						}
+						return out
+					}
+					readsAt := func(e ast.Expr) map[types.Object]bool {
+						out := map[types.Object]bool{}
+						mention := func(x ast.Expr) {
+							ast.Inspect(x, func(m ast.Node) bool {
+								if id, ok := m.(*ast.Ident); ok {
+									if v, ok := p.TypesInfo.Uses[id].(*types.Var); ok {
+										out[v] = true
+									}
+								}
+								return true
+							})
+						}
+						ast.Inspect(e, func(m ast.Node) bool {
+							switch x := m.(type) {
+							case *ast.IndexExpr:
+								if _, isMap := p.TypesInfo.TypeOf(x.X).Underlying().(*types.Map); !isMap {
+									mention(x.Index)
+								}
+							case *ast.CallExpr:
+								if fn, ok := typeutil.Callee(p.TypesInfo, x).(*types.Func); ok {
+									switch fn.Name() {
+									case "Get", "GetNextSet", "GetNextUnset", "IsRange":
+										if recv := fn.Type().(*types.Signature).Recv(); recv != nil {
+											for _, a := range x.Args {
+												mention(a)
+											}
+										}
+									}
+								}
+							}
+							return true
+						})
+						return out
+					}
+					// positive instances: comparison on the left, read on the right
+					if cmpL := compared(be.X); len(cmpL) > 0 {
+						readR := readsAt(be.Y)
+						for v := range cmpL {
+							if readR[v] {
+								guarded++
+								r.Pass("E-GUARDORDER", fmt.Sprintf("%s:%s@%d", fdKey(p, fd), v.Name(), guarded), c.pos(be.Pos()), "bound tested before the read")
+							}
+						}
+					}
+					cmpR := compared(be.Y)
+					if len(cmpR) == 0 {
+						return true
+					}
+					readL := readsAt(be.X)
+					for v := range cmpR {
+						if readL[v] {
+							// the left operand may itself guard v: A (guards v) op read(v) op cmp(v) is fine when an earlier
+							// comparison of v precedes the read inside the left operand
+							if lb, ok := ast.Unparen(be.X).(*ast.BinaryExpr); ok && (lb.Op == token.LOR || lb.Op == token.LAND) && compared(lb.X)[v] {
+								continue
+							}
+							r.Fail("E-GUARDORDER", fdKey(p, fd)+":"+v.Name(), c.pos(be.Pos()), "violation", fmt.Sprintf("%s is used as a read position in the left operand and compared with its bound only in the right operand of %s", v.Name(), be.Op))
+							return true
+						}
+					}
+					return true
+				})
+			}
+		}
+	}
+	r.Extra("E-GUARDORDER short-circuit conditions", n)
+	r.Extra("E-GUARDORDER guarded reads", guarded)
 }
